@@ -337,20 +337,51 @@ func runC15(c *eng.Ctx) {
 	RunPartialOutputs(c, "C15", cr.next)
 	RunVariadicFailures(c, cr.next)
 	nSpecs := c.Pick(300, 6000)
-	for k := 0; k < nSpecs; k++ {
+	// directed sets first (every tier): scope initializers that construct disposable services, and a
+	// history that opens a top-level scope, a child and a grandchild - every constructor invocation
+	// of every creation is made to fail in turn, so a creation that fails half-way (something was
+	// built for the new scope already) is met on provider.CreateScope AND on scope.CreateScope
+	directed := []*Spec{
+		{Regs: []Reg{mkReg("Leaf_K0_a", godi.Scoped), mkReg("Leaf_S0_a", godi.Scoped), mkReg("VoidK0", godi.Scoped), mkReg("VoidS0", godi.Scoped)}},
+		{Regs: []Reg{mkReg("Leaf_K0_a", godi.Transient), mkReg("Leaf_S0_a", godi.Scoped), mkReg("VoidK0", godi.Scoped), mkReg("VoidS0", godi.Scoped)}},
+		{Regs: []Reg{mkReg("Leaf_K0_a", godi.Scoped), mkReg("PosA_1_1", godi.Scoped), mkReg("VoidK1", godi.Scoped), mkReg("Leaf_S0_a", godi.Singleton), mkReg("VoidS0", godi.Scoped)}},
+	}
+	for k := -len(directed); k < nSpecs; k++ {
 		idx, mine := cr.next()
 		if !mine {
 			continue
 		}
 		rng := cr.rng(idx)
-		s, m := GenSpec(rng, GenOpts{Want: ClsOK, Specials: k%2 == 0, Removes: k%4 == 0, MultiAlias: k%4 == 0})
+		kq := k
+		if kq < 0 {
+			kq = -kq
+		}
+		var s *Spec
+		var m *Model
+		if k < 0 {
+			s = directed[k+len(directed)]
+			m = NewModel(s)
+			if m.Class != ClsOK {
+				panic(fmt.Sprintf("harness fixture %d of C15 (directed fault enumeration) is not buildable: %s", k+len(directed), m.Class))
+			}
+			c.R.Count("directed_fault_enumeration_specs", 1)
+		} else {
+			s, m = GenSpec(rng, GenOpts{Want: ClsOK, Specials: k%2 == 0, Removes: k%4 == 0, MultiAlias: k%4 == 0})
+		}
 		if s == nil {
 			continue
 		}
 		c.R.Begin(idx)
 		base := NewRun(s, m, nil, nil)
 		base.Build()
-		if base.Built {
+		if base.Built && k < 0 {
+			s1 := base.Do(Op{Kind: OpCreate, Scope: 0, CtxKind: 1}).NewScope
+			s2 := base.Do(Op{Kind: OpCreate, Scope: s1, CtxKind: 0}).NewScope
+			s3 := base.Do(Op{Kind: OpCreate, Scope: s2, CtxKind: 1}).NewScope
+			ProbeRegistered(base, s3)
+			ProbeRegistered(base, s1)
+			base.Finish()
+		} else if base.Built {
 			GenScript(rng, base, 1+rng.Intn(3), 4+rng.Intn(8), 8)
 			base.Finish()
 		}
@@ -380,15 +411,15 @@ func runC15(c *eng.Ctx) {
 			if meta.HasErr {
 				kinds = []rt.FaultKind{rt.FErr, rt.FPanic}
 			}
-			if len(meta.Outs) > 0 && (ri+k)%4 == 0 {
+			if len(meta.Outs) > 0 && (ri+kq)%4 == 0 {
 				kinds = append(kinds, rt.FNil)
 			}
-			kind := kinds[(ri+k)%len(kinds)]
-			pidx := (ri + k) % (len(rt.PanicVals) + 1)
+			kind := kinds[(ri+kq)%len(kinds)]
+			pidx := (ri + kq) % (len(rt.PanicVals) + 1)
 			if pidx == len(rt.PanicVals) {
 				pidx = -1 // nil-pointer dereference
 			}
-			fault := rt.Fault{Ctor: run.Ctor, Nth: run.Nth, Kind: kind, PanicIdx: pidx, ErrIdx: (ri + k/2) % len(rt.ErrShapes)}
+			fault := rt.Fault{Ctor: run.Ctor, Nth: run.Nth, Kind: kind, PanicIdx: pidx, ErrIdx: (ri + kq/2) % len(rt.ErrShapes)}
 			fs := runFaulted(c, idx, s, m, ops, fault, run.Op)
 			positions++
 			c.R.Count("fault_positions", 1)
